@@ -11,7 +11,10 @@ Decided clauses:
         every bit (below bit 48) of the loop-position comparison (i ^ xpadlen in sodium_pad, and any
         such xor in sodium_unpad) can influence the stored padding bytes / the verdict - a comparison
         truncated to 32 bits treats positions that differ only above bit 31 as equal.
-NOT decided: position of the 0x80 marker, round-trip, the rejection set (value-level).
+  R16.4 (E11, influence within one iteration) the marker test of sodium_unpad depends on all 8 bits of the
+        scanned byte: each bit can influence the verdict accumulator in its own iteration (a test of bit 7 alone
+        accepts 0x81..0xff as the marker).
+NOT decided: position of the 0x80 marker, round-trip, the rest of the rejection set (value-level).
 """
 from .. import terms as T
 from ..build import AnalysisBroken
@@ -145,3 +148,60 @@ def width_rule(ctx, prog, chk):
                    detail="bits %s of (position ^ marker position) are dropped before the mask is formed: positions that differ only "
                    "there are treated as equal" % blind[:6] if blind else "", key="R16.3 %s" % fname)
     chk.floor("R16.3", "(position comparison, bit) flows analysed", n, 48)
+    marker_rule(ctx, prog, chk)
+
+
+def marker_rule(ctx, prog, chk):
+    """R16.4: the marker test of sodium_unpad looks at the whole byte"""
+    from .. import bitflow, e9
+    f = prog.need("sodium_unpad", rule="R16.4")
+    bf = bitflow.BitFlow(e9.O2Unit(ctx, f.unit))
+    if f.name not in bf.unit.fns:
+        raise AnalysisBroken("R16.4: sodium_unpad vanished from the -O2 IR")
+    jf = bf.unit.fns[f.name]
+    insts, blocks = jf["insts"], jf["blocks"]
+    bidx = f.param_index("buf")
+    loads = [i for i, ins in enumerate(insts) if ins["op"] == "load" and ins["ty"] == "i8" and ("%buf" in ins.get("scev", ""))
+             and blocks[ins["b"]].get("loopdepth", 0) >= 1]
+    if len(loads) != 1 or bidx is None:
+        raise AnalysisBroken("R16.4: expected one byte load from buf in the scan loop of sodium_unpad (found %d)" % len(loads))
+    L = loads[0]
+    # the loop-carried value that decides the verdict: the header phi from which the returned value is computed
+    rets = [ins["ops"][0] for ins in insts if ins["op"] == "ret" and ins.get("ops")]
+    hdr_phis = [i for i, ins in enumerate(insts) if ins["op"] == "phi" and blocks[ins["b"]].get("loophdr")]
+    verdict = None
+    for hp in hdr_phis:
+        for v, _b in insts[hp]["inc"]:
+            if v[0] != "v":
+                continue
+            # v (the next value of hp) must reach the return value through pure operations
+            seen, stack = set(), [r[1] for r in rets if r[0] == "v"]
+            while stack:
+                x = stack.pop()
+                if x in seen:
+                    continue
+                seen.add(x)
+                if x == v[1]:
+                    verdict = (hp, v[1])
+                    break
+                xi = insts[x]
+                if xi["op"] in ("load", "call"):
+                    continue
+                stack.extend(o[1] for o in xi.get("ops", ()) if o[0] == "v")
+                if not (xi["op"] == "phi" and blocks[xi["b"]].get("loophdr")):
+                    stack.extend(o[1] for o, _b2 in xi.get("inc", ()) if o[0] == "v")       # not around the loop
+            if verdict is not None:
+                break
+        if verdict is not None:
+            break
+    if verdict is None:
+        raise AnalysisBroken("R16.4: no loop-carried verdict value found in sodium_unpad")
+    blind = []
+    for bit in range(8):
+        r = bf.analyse_value(f.name, L, bit, cut_phis=True)
+        if not r["masks"].get(verdict[1], 0):
+            blind.append(bit)
+    chk.ob("R16.4", f, "each of the 8 bits of the scanned byte can influence, within its own iteration, the verdict accumulator "
+           "(%%%s): the marker test is `byte == 0x80`, not a test of some of its bits" % insts[verdict[0]].get("name", "valid"), not blind,
+           detail="bits %s of the byte do not reach it" % blind if blind else "", key="R16.4 sodium_unpad marker-byte")
+    chk.floor("R16.4", "bits of the scanned byte analysed", 8, 8)
